@@ -135,16 +135,18 @@ Section Inst.
   Definition all (p : pool) : list sc := gossiped p ++ nongossiped p.
 
   (* returns (code, pool observed after the op) *)
-  Definition check_op (e : env) (p : pool) (o : op) : N * pool :=
+  (* [e]: the node's view as dumped from its store (model side); [es]: the same view with the BFT parameters of the
+     scenario's own schedule (oracle side: what the parameters of a height must be) *)
+  Definition check_op (e es : env) (p : pool) (o : op) : N * pool :=
     match o with
     | OVerify a r =>
         (code (vres_code (verify sig_len0_i msg_of_i fav_i e a) =? r)
-              (if r =? 0 then verify_spec e a else true), p)
+              (if r =? 0 then verify_spec es a else true), p)
     | OScv m reject g ng =>
         let '(p', r) := single_commit_validator msg_of_i vrf_i e p m in
         let q := mkpool g ng in
         (code (pool_eqb p' g ng && Bool.eqb reject (match r with SReject => true | SIgnore => false end))
-              (forallb (fun c => sc_in c (all p) || commit_valid e c) (all q) && (negb (nodup_b (all p)) || nodup_b (all q))), q)
+              (forallb (fun c => sc_in c (all p) || commit_valid es c) (all q) && (negb (nodup_b (all p)) || nodup_b (all q))), q)
     | OAdd c g ng =>
         let q := mkpool g ng in
         (code (pool_eqb (pool_add p c) g ng) true, q)
@@ -152,7 +154,7 @@ Section Inst.
         let '(p', er) := certify (fun c => CSig [(ki, c)]) e p from to a in
         let q := mkpool g ng in
         (code (scs_eqb (gossiped p') g && scs_same (nongossiped p') ng && Bool.eqb er err)
-              (forallb (fun c => sc_in c (all p) || commit_valid e c) (all q) && (negb (nodup_b (all p)) || nodup_b (all q))), q)
+              (forallb (fun c => sc_in c (all p) || commit_valid es c) (all q) && (negb (nodup_b (all p)) || nodup_b (all q))), q)
     | OGac res v g ng =>
         let q := mkpool g ng in
         let m := get_aggregate_commit agg_i e (gossiped p) (nongossiped p) in
@@ -162,8 +164,11 @@ Section Inst.
                      | GErrParams, None | GErrAggregate _, None => true
                      | _, _ => false
                      end in
-        let pool_ok := forallb (commit_valid e) (all p) && nodup_b (all p) in
-        (code (agree && pool_eqb p g ng) (if pool_ok then match res with Some _ => v =? 0 | None => false end else true), q)
+        let pool_ok := forallb (commit_valid es) (all p) && nodup_b (all p) in
+        (code (agree && pool_eqb p g ng)
+              (if pool_ok then match res with
+                               | Some b => (v =? 0) && (* and what it assembled is sound w.r.t. the schedule *) verify_spec es b
+                               | None => false end else true), q)
     | OCleanup keep g ng =>
         let q := mkpool g ng in
         (code (pool_eqb (cleanup p (fun h => existsb (N.eqb h) keep)) g ng) (scs_incl (all q) (all p)), q)
@@ -178,16 +183,20 @@ Section Inst.
     end.
 
   (* first operation violating the oracle if there is one, otherwise first operation differing from the model *)
-  Fixpoint check_ops (e : env) (p : pool) (os : list op) (i : N) (first_model : N) : N :=
+  Fixpoint check_ops (e es : env) (p : pool) (os : list op) (i : N) (first_model : N) : N :=
     match os with
     | [] => first_model
-    | o :: t => let '(c, q) := check_op e p o in
+    | o :: t => let '(c, q) := check_op e es p o in
                 if 2 <=? c then 4 * i + c
-                else check_ops e q t (i + 1) (if (first_model =? 0) && (c =? 1) then 4 * i + c else first_model)
+                else check_ops e es q t (i + 1) (if (first_model =? 0) && (c =? 1) then 4 * i + c else first_model)
     end.
 End Inst.
 
-(* key table, the node's view, the pool carried over from the earlier part of the history, operations *)
-Definition scenario : Type := list key * env * (list (single_commit csig) * list (single_commit csig)) * list op.
+(* key table, the node's view, the scenario's own parameter schedule, the pool carried over from the earlier part of the
+   history, operations *)
+Definition scenario : Type :=
+  list key * env * list (N * params) * (list (single_commit csig) * list (single_commit csig)) * list op.
 Definition check_scenario (s : scenario) : N :=
-  let '(kt, e, (g0, ng0), os) := s in check_ops kt e {| gossiped := g0; nongossiped := ng0 |} os 0 0.
+  let '(kt, e, sched, (g0, ng0), os) := s in
+  let es := {| e_mhp := e_mhp e; e_mhc := e_mhc e; e_params := sched; e_chain := e_chain e |} in
+  check_ops kt e es {| gossiped := g0; nongossiped := ng0 |} os 0 0.
